@@ -36,5 +36,5 @@ Definition drv_ir_first (ascii unicode utf16 : bool) (h : list N) (fuel : nat) (
   ir_search (if ascii then ix_ascii else ix_utf8) unicode utf16 h fuel (ir_top n) ngroups (S (S (length h))) start.
 
 Extraction "model.ml" drv_ir_first ir_wf ir_top look_wf bt_wf brackets_wf qok simple parsed utf8_chars text_ok_b pref_walk_ok searcher_test walk_ok ix_utf8 s_run r_run fs_init rs_init property_lookup ref_binary ref_gc ref_gc_named ref_sc ref_scx ref_strings ref_probes canon_ref eqclass_ref cps_add cps_add_one cps_add_set cps_inverted cps_inverted_interval_count cps_remove cps_intersect cps_contains cps_wf
-  class_node char_node dot_node eval vmcs u16_next_right u16_next_left ucs2_next_right ucs2_next_left add_icase_code_points_for unfold_char unfold_uppercase_char drv_es_first optimize emit drv_lit_occ drv_bt drv_pk fold_code_point
+  class_node char_node dot_node make_cat make_alt eval vmcs u16_next_right u16_next_left ucs2_next_right ucs2_next_left add_icase_code_points_for unfold_char unfold_uppercase_char drv_es_first optimize emit drv_lit_occ drv_bt drv_pk fold_code_point
   group named_group named_groups groups replace replace_all drv_ident drv_first_ident drv_all_const escape.
